@@ -13,7 +13,7 @@ COL = {"fgbg": 5, "fg": 4, "none": 6}
 
 def class_id(c):
     shape = 1 if c["ml"] else (2 if c["ga"] else 0)
-    return FMT[c["fmt"]] * 100 + COL[c["col"]] * 10 + shape
+    return FMT[c["fmt"]] * 1000 + COL[c["col"]] * 100 + shape
 
 
 def all_classes():
@@ -52,17 +52,26 @@ def run(ctx, replay):
             for h1 in ids:
                 behaviours.append(dict(history=[h1], probe=p))
         if not quick:
-            colour = [i for i in ids if i // 100 == 2]
+            colour = [i for i in ids if i // 1000 == 2]
             for p in colour:
                 for h1 in ids:
                     for h2 in colour:
                         behaviours.append(dict(history=[h1, h2], probe=p))
         # 4. seeded random long histories over the whole record space (8 severities x 8 shapes x 3 formats)
         rng = random.Random(ctx.seed * 104729 + 3)
-        space = [f * 100 + s * 10 + sh for f in range(3) for s in range(8) for sh in range(8)]
+        NSHAPES = 15
+        space = [f * 1000 + s * 100 + sh for f in range(3) for s in range(8) for sh in range(NSHAPES)]
+        probes = [x for x in space if x % 100 != 12]          # a probe whose own value panics has no output to compare
+        # every special shape once directly in front of probes of every format
+        for sh in range(NSHAPES):
+            for f in range(3):
+                h = f * 1000 + rng.randrange(8) * 100 + sh
+                for pf in range(3):
+                    for psh in (0, 2, 13, 1):
+                        behaviours.append(dict(history=[h], probe=pf * 1000 + rng.choice((0, 4, 5, 6)) * 100 + psh))
         for _ in range(300 if quick else 6000):
             n = rng.randint(1, 12)
-            behaviours.append(dict(history=[rng.choice(space) for _ in range(n)], probe=rng.choice(space)))
+            behaviours.append(dict(history=[rng.choice(space) for _ in range(n)], probe=rng.choice(probes)))
     sp = os.path.join(ctx.scratch, "hist.json")
     with open(sp, "w") as fh:
         json.dump(dict(behaviours=behaviours), fh)
@@ -85,7 +94,7 @@ def run(ctx, replay):
         row = rows[b["line"] - 1]
         beh = behaviours[b["line"] - 1]
         pid = beh["probe"]
-        key = "probe:fmt%d:sev%d" % (pid // 100, (pid // 10) % 10)
+        key = "probe:fmt%d:sev%d" % (pid // 1000, (pid // 100) % 10)
         ctx.finding(key, "probe %d after history %s differs from the same probe on a fresh pool: got %r want %r" % (
             pid, beh["history"], row.get("got", "")[:300], row.get("want", "")[:300]), dict(kind="history", behaviour=beh))
     ctx.traces += len(rows)
@@ -99,5 +108,5 @@ def run(ctx, replay):
                         "probes are issued through WriteThru with a fixed timestamp"]
     return ctx.finish(rule="all (history of <=1 (quick) / <=2 (thorough) record classes, probe class) pairs of the model's class space "
                            "(3 formats x 3 colour-registration classes x multi-line x group) + seeded random histories of up to 12 "
-                           "records over 192 record kinds; each probe's bytes compared with the same probe on a fresh pool; "
+                           "records over 360 record kinds (incl. reserved-name attributes, 100 KiB records, stack-carrying errors, values that panic); each probe's bytes compared with the same probe on a fresh pool; "
                            "non-trivial = distinct (history, probe) with non-empty history", exhaustive=not bool(replay))
